@@ -3,6 +3,7 @@ package mdns
 import (
 	"context"
 	"net"
+	"strings"
 	"sync"
 
 	"github.com/enbility/ship-go/api"
@@ -52,9 +53,15 @@ func (z *ZeroconfProvider) Announce(serviceName string, port int, txt []string) 
 	// withdraw a previous announcement, it would stay active with its outdated data otherwise
 	z.Unannounce()
 
+	// the zeroconf library takes and provides TXT strings in the DNS presentation format
+	escapedTxt := make([]string, 0, len(txt))
+	for _, item := range txt {
+		escapedTxt = append(escapedTxt, escapeDnsTxt(item))
+	}
+
 	// use Zeroconf library if avahi is not available
 	// Set TTL to 2 minutes as defined in SHIP chapter 7
-	mDNSServer, err := zeroconf.Register(serviceName, shipZeroConfServiceType, shipZeroConfDomain, port, txt, z.ifaces, zeroconf.TTL(120))
+	mDNSServer, err := zeroconf.Register(serviceName, shipZeroConfServiceType, shipZeroConfDomain, port, escapedTxt, z.ifaces, zeroconf.TTL(120))
 	if err != nil {
 		return err
 	}
@@ -102,7 +109,7 @@ func (z *ZeroconfProvider) chanListener(cb api.MdnsResolveCB) {
 				continue
 			}
 
-			elements := parseTxt(service.Text)
+			elements := parseTxt(unescapeDnsTxtItems(service.Text))
 
 			addresses := service.AddrIPv4
 			cb(elements, service.Instance, service.HostName, addresses, service.Port, true)
@@ -113,11 +120,65 @@ func (z *ZeroconfProvider) chanListener(cb api.MdnsResolveCB) {
 				continue
 			}
 
-			elements := parseTxt(service.Text)
+			elements := parseTxt(unescapeDnsTxtItems(service.Text))
 
 			addresses := service.AddrIPv4
 			addresses = append(addresses, service.AddrIPv6...)
 			cb(elements, service.Instance, service.HostName, addresses, service.Port, false)
 		}
 	}
+}
+
+// In the DNS presentation format a backslash starts an escape sequence:
+// \DDD stands for the byte with the decimal value DDD, \X for the character X.
+// Bytes outside of the printable ASCII range are provided that way, e.g. every
+// byte of a non ASCII UTF-8 character
+
+// provide a TXT string in the DNS presentation format
+func escapeDnsTxt(value string) string {
+	return strings.ReplaceAll(value, "\\", "\\\\")
+}
+
+// provide the TXT strings the DNS presentation format strings stand for
+func unescapeDnsTxtItems(items []string) []string {
+	result := make([]string, 0, len(items))
+	for _, item := range items {
+		result = append(result, unescapeDnsTxt(item))
+	}
+	return result
+}
+
+// provide the TXT string a DNS presentation format string stands for
+func unescapeDnsTxt(value string) string {
+	if !strings.Contains(value, "\\") {
+		return value
+	}
+
+	var result strings.Builder
+	for i := 0; i < len(value); i++ {
+		if value[i] != '\\' || i+1 >= len(value) {
+			result.WriteByte(value[i])
+			continue
+		}
+
+		// \DDD
+		if i+3 < len(value) && isDigit(value[i+1]) && isDigit(value[i+2]) && isDigit(value[i+3]) {
+			number := int(value[i+1]-'0')*100 + int(value[i+2]-'0')*10 + int(value[i+3]-'0')
+			if number <= 255 {
+				result.WriteByte(byte(number))
+				i += 3
+				continue
+			}
+		}
+
+		// \X
+		result.WriteByte(value[i+1])
+		i++
+	}
+
+	return result.String()
+}
+
+func isDigit(value byte) bool {
+	return value >= '0' && value <= '9'
 }
